@@ -23,7 +23,12 @@ def catalogue():
     s3 = [st("NewIssue", 1), st("AddEvent", 1, "title"), st("Round", fail="none"), st("AddEvent", 1, "title"), st("Round", fail="none"), st("Round", fail="none"),
           st("AddEvent", 1, "comment"), st("Round", fail="none"), st("NewIssue", 2), st("AddEvent", 2, "title"), st("AddEvent", 2, "title"), st("Round", fail="notes:2"),
           st("AddEvent", 2, "title"), st("Round", fail="none"), st("Round", fail="none")]
-    return [{"name": "hand-1", "steps": s1}, {"name": "hand-2", "steps": s2}, {"name": "renamed-before-first-import", "steps": s3}]
+    # comments written by people whose texts are the texts of the tracker's own notes ("closed", "changed the description",
+    # "assigned to @..."): one of each, imported in three rounds, some edited afterwards
+    s4 = [st("NewIssue", 1)] + [st("AddEvent", 1, "comment")] * 5 + [st("Round", fail="none")] + [st("AddEvent", 1, "comment")] * 5 + [st("Round", fail="notes:1")] + \
+         [st("AddEvent", 1, "comment")] * 3 + [st("EditNote", 1, k=1), st("EditNote", 1, k=3), st("EditNote", 1, k=7), st("Round", fail="none"), st("Round", fail="none")]
+    return [{"name": "hand-1", "steps": s1}, {"name": "hand-2", "steps": s2}, {"name": "renamed-before-first-import", "steps": s3},
+            {"name": "comments-that-read-like-system-notes", "steps": s4}]
 
 
 def simulate(c, n):
@@ -113,8 +118,8 @@ def run_scheds(c, scheds, tag):
     sf = os.path.join(c.scratch, "bridge-%s.ndjson" % tag)
     tf = os.path.join(c.scratch, "bridge-trace-%s.ndjson" % tag)
     with open(sf, "w") as f:
-        for s in scheds:
-            f.write(json.dumps(s) + "\n")
+        for k, s in enumerate(scheds):
+            f.write(json.dumps(dict(s, seed=s.get("seed", k))) + "\n")
     c.vh(["bridge", sf, tf], timeout=3200)
     sessions = split(tf)
     if len(sessions) != len(scheds):
